@@ -160,6 +160,54 @@ fn cmd_record(m: &HashMap<String, Vec<String>>) -> i32 {
         let tid = w["t"].as_u64().unwrap_or(i as u64 + 1) as usize;
         let mirror: Vec<bool> = w["calls"].as_array().unwrap().iter().map(|c| c.get("mirror").and_then(|x| x.as_bool()).unwrap_or(false)).collect();
         product::record_trace_m(&mut out, tid, &o, &labels, &calls, &mirror);
+        if let Some(then) = w.get("then") {
+            // a read-only post-operation on the graph the calls built: observers, or a truncated load
+            let mut world = exec::World::new(o.n, o.cap, o.scratch.clone());
+            world.labels = labels.clone();
+            for c in &calls {
+                let _ = world.exec(c);
+            }
+            match then["op"].as_str().unwrap_or("") {
+                "observe" => {
+                    let what: Vec<String> = then["what"].as_array().map(|a| a.iter().map(|x| x.as_str().unwrap().to_string()).collect()).unwrap_or_default();
+                    observers::observe_all(&world, 0, tid, &what, &mut out);
+                }
+                "truncload" => {
+                    use std::io::Write;
+                    let img = o.scratch.join(format!("replay-{}.img", std::process::id()));
+                    let cut = o.scratch.join(format!("replay-{}.cut", std::process::id()));
+                    let mut big = exec::World::new(o.n, o.cap, o.scratch.clone());
+                    for v in 0..o.cap {
+                        let _ = big.exec(&exec::HCall { h: 0, call: exec::Call::Add { v } });
+                        let _ = big.exec(&exec::HCall { h: 0, call: exec::Call::Put { v, d: real::hex_text(&[0xAB; 40]) } });
+                    }
+                    let _ = big.g(0).save(&img);
+                    let _ = world.g(0).save(&img);
+                    let bytes = std::fs::read(&img).unwrap_or_default();
+                    let ks: Vec<usize> = match then.get("k").and_then(|x| x.as_u64()) {
+                        Some(k) => vec![k as usize],
+                        None => (0..bytes.len()).collect(),
+                    };
+                    for k in ks {
+                        if k > bytes.len() {
+                            continue;
+                        }
+                        std::fs::write(&cut, &bytes[..k.min(bytes.len())]).unwrap();
+                        let ret = match world.g(0).load_same(&cut) {
+                            Ok(Err(_)) => "err",
+                            Ok(Ok(_)) => "ok",
+                            Err(_) => "panic",
+                        };
+                        if ret != "err" || then.get("k").is_some() {
+                            writeln!(out, "{}", json!({"op": "truncload", "t": tid, "h": 0, "k": k, "size": bytes.len(), "ret": ret})).unwrap();
+                        }
+                    }
+                    let _ = std::fs::remove_file(&img);
+                    let _ = std::fs::remove_file(&cut);
+                }
+                _ => {}
+            }
+        }
     }
     use std::io::Write;
     writeln!(out, "{}", json!({"op":"end","t":0,"h":0})).unwrap();
